@@ -13,6 +13,7 @@ HIST = {"name": "hist", "corpus": True}
 HISTUC = {"name": "histuc", "corpus": True}
 RC = {"name": "rc", "corpus": True}
 HISTW = {"name": "histw", "corpus": True}
+INIT = {"name": "init", "corpus": True}
 # a second, independently seeded pass of the waiting-biased histories (rare estimate shapes are a matter of density)
 HISTW2 = {"name": "histw", "label": "gen2", "env": {"VERIF_SEED_ADD": "1"}}
 
@@ -86,7 +87,7 @@ PROPS = {
             "design_ref": "DESIGN.md §5 C03",
         },
         "lean_props": ["C03", "C08", "C10", "EngineThms", "LinksThms"],
-        "streams": [SOL, HIST, HISTUC],
+        "streams": [SOL, HIST, HISTUC, INIT],
     },
     "C04": {
         "claim": {
@@ -167,7 +168,7 @@ PROPS = {
             "design_ref": "DESIGN.md §5 C08",
         },
         "lean_props": ["C08"],
-        "streams": [SOL, HIST, HISTUC],
+        "streams": [SOL, HIST, HISTUC, INIT],
     },
     "C09": {
         "claim": {
@@ -252,7 +253,7 @@ PROPS = {
             "design_ref": "DESIGN.md §5 C12",
         },
         "lean_props": ["C12"],
-        "facts": ["ShapeFacts"],
+        "facts": ["ShapeFacts", "CheckFacts"],
         "streams": [{"name": "repro", "corpus": True, "model": False}],
     },
     "C13": {
@@ -261,7 +262,9 @@ PROPS = {
                     "grant): FALSE for two or more parallel runs — machine-checked counterexamples for arrival-order "
                     "budget slices and for a run copying the shared best before/after another run of the same cycle "
                     "reported; PROVED: the collector's final best of a cycle is independent of the arrival order of "
-                    "the messages, the total grant is independent of the arrival order at the counter. Decided on the "
+                    "the messages, the total grant is independent of the arrival order at the counter, and in every reachable state of the "
+                    "dispatcher/worker transition system every running worker belongs to the cycle being spawned (cycles never "
+                    "overlap; tied to the code by the worker_copied / worker_done hook events of every detsched case). Decided on the "
                     "real code by forced schedules (delays injected through verifYield at the collector's update, "
                     "worker start, budget grab, send): the final solution of deterministic mode must be the same "
                     "under every schedule. The cross-cycle lag was repaired (E18); schedule dependence with two or "
@@ -383,7 +386,7 @@ PROPS = {
         },
         "lean_props": ["C19", "EngineThms"],
         "facts": ["ShapeFacts"],
-        "streams": [HISTUC],
+        "streams": [HISTUC, INIT],
     },
     "C20": {
         "claim": {
